@@ -14,7 +14,7 @@ import os
 import shutil
 import tempfile
 
-from . import common, lib_db
+from . import common, lib_records
 from .common import parallel_map
 
 RULE = ("cases = (a) stacks: a stack name (blanks, dots, '+'), 3-6 declarations each with a directory placement "
@@ -137,10 +137,10 @@ def want_extra(p, root):
 
 
 def _child_declare(R, stack, p, cwd, dirpath, tablearg, clock0):
-    lib_db.silence()
+    lib_records.silence()
     os.chdir(cwd)
     tempfile.tempdir = os.path.join(R, "tmp")
-    clock = lib_db.patch_stamps(clock0)
+    clock = lib_records.patch_stamps(clock0)
     D = common.eups_mod("db.Database")
     captured = {}
     orig = D._Database.declare
@@ -158,7 +158,7 @@ def _child_declare(R, stack, p, cwd, dirpath, tablearg, clock0):
 
 
 def _child_read(stack, flavor, prods, cwd):
-    lib_db.silence()
+    lib_records.silence()
     os.chdir(cwd)
     os.environ["EUPS_PATH"] = stack
     e = common.new_eups(flavor=flavor)
@@ -169,7 +169,7 @@ def _child_read(stack, flavor, prods, cwd):
             try:
                 q = e.findProduct(name, version, noCache=nc)
             except Exception as ex:  # noqa
-                out[k + ":" + via] = "EXC:" + lib_db.exc_name(ex)
+                out[k + ":" + via] = "EXC:" + lib_records.exc_name(ex)
                 continue
             if q is None:
                 out[k + ":" + via] = None
@@ -217,10 +217,10 @@ def run_reloc(case):
             cwd = {"neutral": R + "/cwd", "stack": stack,
                    "proddir": dirpath, "upsdir": os.path.join(dirpath, "ups")}[p["cwd"]]
             vfile = os.path.join(stack, "ups_db", p["name"], p["version"] + ".version")
-            before = lib_db.read_text(vfile)
-            ex = lib_db.walk(R)
+            before = lib_records.read_text(vfile)
+            ex = lib_records.walk(R)
             r = common.in_child(_child_declare, R, stack, p, cwd, dirpath, tablearg, clock)
-            after = lib_db.read_text(vfile)
+            after = lib_records.read_text(vfile)
             rec = {"i": i, "old_text": before, "text": after, "ex": ex, "clock0": clock}
             if r[0] == "ok":
                 rec["status"] = "ok"
@@ -232,10 +232,10 @@ def run_reloc(case):
             obs["decl"].append(rec)
         # readers before the relocation
         obs["before"] = _read_all(case, stack, R)
-        obs["ex_before"] = lib_db.walk(R)
+        obs["ex_before"] = lib_records.walk(R)
         for p in case["products"]:
             vfile = os.path.join(stack, "ups_db", p["name"], p["version"] + ".version")
-            obs["vfiles"]["%s/%s" % (p["name"], p["version"])] = lib_db.read_text(vfile)
+            obs["vfiles"]["%s/%s" % (p["name"], p["version"])] = lib_records.read_text(vfile)
         new = os.path.join(R, case["new"])
         os.makedirs(os.path.dirname(new), exist_ok=True)
         if case["mode"] == "move":
@@ -244,7 +244,7 @@ def run_reloc(case):
             shutil.copytree(stack, new, symlinks=True)
         obs["new"] = new
         obs["after"] = _read_all(case, new, R)
-        obs["ex_after"] = lib_db.walk(R)
+        obs["ex_after"] = lib_records.walk(R)
         return obs
     finally:
         common.rmtree(R)
@@ -284,7 +284,7 @@ def check_reloc(ctx, case, obs):
         if rec["status"] != "ok" or rec["prod"] is None:
             continue
         reqs.append(_glue_req(case, p, obs, new)); tags.append(("glue", rec["i"]))
-        reqs.append({"m": "c16", "op": "declare", "prod": rec["prod"], "ex": rec["ex"], "who": lib_db.WHO,
+        reqs.append({"m": "c16", "op": "declare", "prod": rec["prod"], "ex": rec["ex"], "who": lib_records.WHO,
                      "now": "T%d" % (rec["clock0"] + 1), "old_text": rec["old_text"]}); tags.append(("declare", rec["i"]))
     last = {}
     for rec in obs["decl"]:
@@ -306,7 +306,7 @@ def check_reloc(ctx, case, obs):
         ctx.hist("cwd=" + p["cwd"])
         ctx.hist("declare=" + rec["status"].split(":")[0])
         if rec["status"] != "ok":
-            ctx.fail("declare_succeeds", inp, lib_db.subst({"i": rec["i"], "status": rec["status"], "detail": rec.get("detail")}, pairs),
+            ctx.fail("declare_succeeds", inp, lib_records.subst({"i": rec["i"], "status": rec["status"], "detail": rec.get("detail")}, pairs),
                      None, note="declaration %d of a valid placement raised" % rec["i"])
     for (tag, i), ans in zip(tags, answers):
         p = case["products"][i]
@@ -317,7 +317,7 @@ def check_reloc(ctx, case, obs):
             impl = dict(rec["prod"])
             mo = {k: ans["prod"][k] for k in impl}
             if impl != mo:
-                ctx.disagree("declare_glue", inp, lib_db.subst(impl, pairs), lib_db.subst(mo, pairs), note="product %d" % i)
+                ctx.disagree("declare_glue", inp, lib_records.subst(impl, pairs), lib_records.subst(mo, pairs), note="product %d" % i)
         elif tag == "declare":
             impl = rec["text"]
             mo = ans.get("text", "ERR:" + ans.get("err", "?"))
@@ -325,7 +325,7 @@ def check_reloc(ctx, case, obs):
                 ctx.hist("model=unmodelled")
                 continue
             if impl != mo:
-                ctx.disagree("version_file_text", inp, lib_db.subst(impl, pairs), lib_db.subst(mo, pairs), note="product %d" % i)
+                ctx.disagree("version_file_text", inp, lib_records.subst(impl, pairs), lib_records.subst(mo, pairs), note="product %d" % i)
         else:
             root = stack if tag == "before" else new
             views = obs[tag]
@@ -344,7 +344,7 @@ def check_reloc(ctx, case, obs):
                     impl = v
                 # oracle (i): the files view always; the cache view after the relocation (rebuilt from the files)
                 if (via == "files" or tag == "after") and impl != mo and mo != "ERR:unmodelled":
-                    ctx.disagree("reader_%s_%s" % (tag, via), inp, lib_db.subst(impl, pairs), lib_db.subst(mo, pairs), note="product %d" % i)
+                    ctx.disagree("reader_%s_%s" % (tag, via), inp, lib_records.subst(impl, pairs), lib_records.subst(mo, pairs), note="product %d" % i)
                 # oracle (ii)
                 clause = None
                 if not isinstance(v, dict):
@@ -358,8 +358,8 @@ def check_reloc(ctx, case, obs):
                 elif v["dir_ok"] is False or v["table_ok"] is False:
                     clause, note = "resolved_path_exists", "dir_ok=%r table_ok=%r" % (v["dir_ok"], v["table_ok"])
                 if clause:
-                    ctx.fail(clause + "/" + tag, inp, lib_db.subst(impl, pairs), lib_db.subst(mo, pairs),
-                             note=lib_db.subst("product %d via %s: %s" % (i, via, note), pairs))
+                    ctx.fail(clause + "/" + tag, inp, lib_records.subst(impl, pairs), lib_records.subst(mo, pairs),
+                             note=lib_records.subst("product %d via %s: %s" % (i, via, note), pairs))
                 elif tag == "after":
                     nontrivial = True
             declared_ok += 1
@@ -523,9 +523,9 @@ def run_rec(case, workdir):
                 f = VersionFile(path, case["name"], case["version"], readFile=False)
             f.info = {fq: dict(i) for fq, i in case["flavors"]}
             f.write()
-            out["text"] = lib_db.read_text(path)
+            out["text"] = lib_records.read_text(path)
         except Exception as ex:  # noqa
-            out["text"] = "EXC:" + lib_db.exc_name(ex)
+            out["text"] = "EXC:" + lib_records.exc_name(ex)
             if os.path.exists(path):
                 os.remove(path)
     else:
@@ -536,12 +536,12 @@ def run_rec(case, workdir):
         try:
             if chain:
                 f = ChainFile(path, case.get("read_name"), case.get("read_tag"), verbosity=-1)
-                out["read"] = lib_db.info_of_chainfile(f)
+                out["read"] = lib_records.info_of_chainfile(f)
             else:
                 f = VersionFile(path, case.get("read_name"), case.get("read_version"), verbosity=-1)
-                out["read"] = lib_db.info_of_versionfile(f)
+                out["read"] = lib_records.info_of_versionfile(f)
         except Exception as ex:  # noqa
-            out["read"] = "EXC:" + lib_db.exc_name(ex)
+            out["read"] = "EXC:" + lib_records.exc_name(ex)
     else:
         out["read"] = None
     return out
@@ -609,7 +609,7 @@ _MAIN = os.getpid()
 
 def _work(cases):
     if os.getpid() != _MAIN:
-        lib_db.silence()
+        lib_records.silence()
     wd = common.scratch("c16w")
     back = os.getcwd()
     os.chdir(wd)
